@@ -441,6 +441,101 @@ def c12_7(ctx):
                     "and its control block gets the other leaf's path (the leaf becomes unspendable)" % ", ".join(missing), eq, mod, key="eq-commit")]
 
 
+def c12_8(ctx):
+    """every place that recomputes the output key (TapLeaf / TapBranch / ControlBlock.external_pubkey) uses the even-Y lift of
+    the internal key: it delegates to <internal key>.tweaked_key(root) or is algebraically even(P) + t*G.  Adding the tweak
+    to the internal key as held (whatever its Y parity) gives another point when the key has odd Y"""
+    out = []
+    for spec, key_is in (("taproot:TapLeaf.external_pubkey", "param"), ("taproot:TapBranch.external_pubkey", "param"), ("taproot:ControlBlock.external_pubkey", "attr")):
+        mod, fn = rl.get(ctx, spec)
+        cfg = cfg_of(fn)
+        pk = "self.internal_pubkey" if key_is == "attr" else param_names(fn)[1]
+        for n in cfg.returns():
+            if n.ast is None or n.ast.value is None:
+                continue
+            ex = expand(fn, n.id, n.ast.value, depth=6)
+            txt = ast.unparse(ex)
+            if isinstance(ex, ast.Call) and call_name(ex) == "tweaked_key" and isinstance(ex.func, ast.Attribute) and ast.unparse(ex.func.value) == pk:
+                out.append(ctx.ok(spec, "output key = %s.tweaked_key(root)" % pk, n.ast, mod, key="uses-even-lift"))
+                continue
+            try:
+                ts = sorted(algebra.terms(ex))
+            except Exception:
+                ts = None
+            if ts and (1, pk + ".even_point()") in ts and any("tweak" in t for _, t in ts) and not any(t == pk for _, t in ts):
+                out.append(ctx.ok(spec, "output key = even(P) + t·G (`%s`)" % txt[:70], n.ast, mod, key="uses-even-lift"))
+            elif ts and any(t == pk for _, t in ts):
+                out.append(ctx.bad(spec, "output key is `%s`: the tweak is added to the internal key as it is held, not to its even-Y lift -- for an internal key with odd Y "
+                                         "the recomputed output key and parity differ from the ones the tree commits to" % txt[:90], n.ast, mod, key="uses-even-lift"))
+            else:
+                out.append(ctx.err(spec, "output key `%s` not recognised" % txt[:80], n.ast, mod))
+    return out
+
+
+def c12_9(ctx):
+    """FALSY-DEFAULT: leaf version 0 (or any other falsy argument) is not silently replaced by a default"""
+    from sa.falsy import falsy_default_obligation
+    return falsy_default_obligation(ctx, ["taproot", "witness"], "a leaf built with version 0x00 is hashed and committed as another version, and a control block whose "
+                                    "version byte is altered to 00 still reproduces the output key")
+
+
+def c12_10(ctx):
+    """Witness.control_block / Witness.tap_script pick the last and the last-but-one item of a script-path witness *after* an
+    annex (a final item starting with 0x50, when there are at least two items) has been set aside -- in every witness shape
+    (0..2 script inputs, with and without annex).  Cell evaluation: the items are distinct markers, the parsers are stand-ins
+    that return which item they were given."""
+    from sa.cells import Evaluator, Obj, Raised, Undecided
+    out = []
+    script, cb, annex = b"\x51", b"\xc0" + bytes(32), b"\x50\xaa"
+    shapes = []
+    for k in range(0, 3):
+        args = [bytes([0x10 + i]) * 3 for i in range(k)]
+        shapes.append((args + [script, cb], False))
+        shapes.append((args + [script, cb, annex], True))
+
+    def opaque(name, args, kw):
+        if name == "encode_varstr":
+            return ("varstr", args[0])
+        return NotImplemented
+    for meth, want, what in (("control_block", ("cb", cb), "the control block"), ("tap_script", ("script", ("varstr", script)), "the leaf script")):
+        spec = "witness:Witness." + meth
+        mod, fn = rl.get(ctx, spec)
+        bad = None
+        for items, has_annex in shapes:
+            w = Obj("witness", "Witness", {"items": list(items)})
+            ev = Evaluator(ctx.repo, opaque=opaque, externals={"BytesIO": lambda x: x},
+                           method_hooks={("ControlBlock", "parse"): lambda *a, **k: ("cb", a[-1] if a else None), ("Script", "parse"): lambda *a, **k: ("script", a[-1] if a else None)})
+            ctx.count("cells")
+            try:
+                got = ev.call(spec, [], self_obj=w)
+            except Undecided as u:
+                bad = ("err", "%s not evaluable: %s" % (meth, u))
+                break
+            except Raised as r:
+                bad = ("bad", "raises %s on a witness of %d items%s" % (r.name, len(items), " with annex" if has_annex else ""))
+                break
+            if got != want:
+                idx = None
+                g = got[1] if isinstance(got, tuple) and len(got) == 2 else got
+                if isinstance(g, tuple) and len(g) == 2 and g[0] == "varstr":
+                    g = g[1]
+                if g in items:
+                    idx = items.index(g) - len(items)
+                bad = ("bad", "takes item [%s] as %s for a witness of %d items %s annex (expected [%d])" % (
+                    idx if idx is not None else "?", what, len(items), "with" if has_annex else "without", (-2 if meth == "control_block" else -3) if has_annex else (-1 if meth == "control_block" else -2)))
+                break
+            if w.attrs["items"] != list(items):
+                bad = ("bad", "changes the witness items while reading them")
+                break
+        if bad and bad[0] == "err":
+            out.append(ctx.err(spec, bad[1], fn, mod))
+        elif bad:
+            out.append(ctx.bad(spec, "Witness.%s %s: the leaf hash / output key are computed from the wrong item" % (meth, bad[1]), fn, mod, key="annex-index:" + meth))
+        else:
+            out.append(ctx.ok(spec, "%s is taken from the right item in all %d witness shapes (with / without annex)" % (what, len(shapes)), fn, mod, key="annex-index:" + meth))
+    return out
+
+
 OBLIGATIONS = [
     ("C12.7", "SIBLING read-set", c12_7),
     ("C12.6", "MEMO", c12_6),
@@ -449,5 +544,8 @@ OBLIGATIONS = [
     ("C12.3", "LAYOUT slice tiling", c12_3),
     ("C12.4", "SIBLING dataflow", c12_4),
     ("C12.5", "DATAFLOW", c12_5),
+    ("C12.8", "SIBLING dataflow", c12_8),
+    ("C12.9", "FALSY-DEFAULT", c12_9),
+    ("C12.10", "CELLS annex index", c12_10),
 ]
 FLOORS = {"C12.1": 4, "C12.3": 6, "C12.4": 10, "C12.5": 5}
